@@ -12,6 +12,7 @@ package main
 
 import (
 	"fmt"
+	"strings"
 
 	"verifharness/rig"
 )
@@ -58,7 +59,9 @@ func judgeEpoch(c *rig.Ctx, qps, burst int, obs []Obs, slack int) (bad *stretchV
 		}
 		qps, burst = *o.RQ, *o.RB
 		events = []Obs{}
-		if last != "" {
+		if last != "" && !strings.HasPrefix(last, "-") {
+			// counted from the last call - but never from before the zero time, where a new bucket's own clock starts
+			// (`c06_lower_judge` needs the bucket's clock <= prev; instants before year 1 only occur in scripts)
 			prev = last
 		}
 	}
